@@ -626,3 +626,18 @@ def ceval(n, bind, defs=None, depth=0):
             x, y = ceval(a[0], bind, defs, depth + 1), ceval(a[1], bind, defs, depth + 1)
             return min(x, y) if name == 'min' else max(x, y)
     raise Unknown('%s `%s`' % (k, s.text(30)))
+
+
+def ast_conditions(node):
+    """(condition node, polarity) of the enclosing if-statements / conditional operators of node (structured path condition;
+    exact for code without goto, up to earlier early exits which only strengthen it)"""
+    res = []
+    child = node
+    for a in node.ancestors():
+        if a.k in ('IfStmt', 'ConditionalOperator'):
+            if a.then is not None and (a.then is child or a.then.is_ancestor_of(child)):
+                res.append((a.cond, True))
+            elif a.els is not None and (a.els is child or a.els.is_ancestor_of(child)):
+                res.append((a.cond, False))
+        child = a
+    return res
